@@ -179,6 +179,123 @@ def _open_text_raw(tree):
     return False
 
 
+KNOWN_EXC = ("AccessDenied", "ZombieProcess", "NoSuchProcess", "Error", "Exception", "BaseException",
+             "OSError", "FileNotFoundError")
+
+
+def _clause_classes(h):
+    """sorted class names of one `except` clause (the order inside a tuple is immaterial)"""
+    t = h.type
+    if t is None:
+        return ["BaseException"]
+    elts = t.elts if isinstance(t, ast.Tuple) else [t]
+    names = []
+    for e in elts:
+        nm = extract.dotted(e).split(".")[-1]
+        if nm not in KNOWN_EXC:
+            raise NotRecognised("except clause names %r" % extract.unparse(e))
+        names.append(nm)
+    return sorted(set(names))
+
+
+def _clause_tag(h):
+    """what an `except` body does: "pass" | "raise" (bare re-raise / `raise <bound name>`) | "guess"
+    (`return guess_it(fallback=<bound name>)`)"""
+    body = [x for x in h.body if not (isinstance(x, ast.Expr) and isinstance(x.value, ast.Constant))]
+    if body and all(isinstance(x, ast.Pass) for x in body):
+        return "pass"
+    if len(body) == 1 and isinstance(body[0], ast.Raise) and body[0].cause is None \
+            and (body[0].exc is None or (h.name and extract.dotted(body[0].exc) == h.name)):
+        return "raise"
+    if len(body) == 1 and isinstance(body[0], ast.Return) and isinstance(body[0].value, ast.Call) \
+            and extract.dotted(body[0].value.func) == "guess_it" and not body[0].value.args \
+            and len(body[0].value.keywords) == 1 and body[0].value.keywords[0].arg == "fallback" \
+            and h.name and extract.dotted(body[0].value.keywords[0].value) == h.name:
+        return "guess"
+    raise NotRecognised("except body not recognised: %s" % extract.unparse(h)[:120])
+
+
+def _guards(tr, pred):
+    """does the BODY of this try consist of one statement for which `pred` holds?"""
+    return len(tr.body) == 1 and pred(tr.body[0])
+
+
+def _try_guarding(fn, what, pred):
+    """the unique `try` in `fn` (nested defs excluded) whose body is the single statement selected by `pred`;
+    that statement must not occur outside a try either"""
+    tries = []
+    stack = list(fn.body)
+    while stack:
+        n = stack.pop()
+        if isinstance(n, (ast.FunctionDef, ast.AsyncFunctionDef, ast.Lambda, ast.ClassDef)):
+            continue
+        if isinstance(n, ast.Try) and _guards(n, pred):
+            tries.append(n)
+        stack.extend(ast.iter_child_nodes(n))
+    if len(tries) != 1:
+        raise NotRecognised("%s: %d try statements guard it, expected 1" % (what, len(tries)))
+    tr = tries[0]
+    if tr.finalbody:
+        raise NotRecognised("%s: try has a finally" % what)
+    return tr
+
+
+def _clauses(tr):
+    return [(_clause_classes(h), _clause_tag(h)) for h in tr.handlers]
+
+
+def _is_assign_call(stmt, target, func, nargs=0, kw=None):
+    if not (isinstance(stmt, ast.Assign) and len(stmt.targets) == 1 and extract.dotted(stmt.targets[0]) == target):
+        return False
+    c = stmt.value
+    if not (isinstance(c, ast.Call) and extract.dotted(c.func) == func and len(c.args) == nargs):
+        return False
+    return [k.arg for k in c.keywords] == (kw or [])
+
+
+def _front_clauses(tree):
+    """the `except` clauses of psutil.Process.name() around `cmdline = self.cmdline()`, of psutil.Process.exe()
+    around `exe = self._proc.exe()` and around `exe = guess_it(fallback=exe)`, and the class `guess_it` selects
+    the fallbacks it raises with"""
+    nm = extract.find_def(tree, "name", cls="Process")
+    ex = extract.find_def(tree, "exe", cls="Process")
+    out = {}
+    out["name"] = _clauses(_try_guarding(nm, "name(): self.cmdline()",
+                                         lambda st: _is_assign_call(st, "cmdline", "self.cmdline")))
+    # no other call of cmdline() in name() (an unguarded one would bypass the clauses)
+    if sum(1 for c in extract.calls_in(nm, "cmdline") if extract.dotted(c.func) == "self.cmdline") != 1:
+        raise NotRecognised("name(): self.cmdline() is called more than once")
+    out["native"] = _clauses(_try_guarding(ex, "exe(): self._proc.exe()",
+                                           lambda st: _is_assign_call(st, "exe", "self._proc.exe")))
+    out["guess"] = _clauses(_try_guarding(ex, "exe(): guess_it(fallback=exe)",
+                                          lambda st: _is_assign_call(st, "exe", "guess_it", kw=["fallback"])))
+    gi = [n for n in ex.body if isinstance(n, ast.FunctionDef) and n.name == "guess_it"]
+    if len(gi) != 1:
+        raise NotRecognised("exe(): guess_it not found")
+    sel = []
+    for n in ast.walk(gi[0]):
+        if isinstance(n, ast.If) and isinstance(n.test, ast.Call) and extract.dotted(n.test.func) == "isinstance" \
+                and len(n.test.args) == 2 and extract.dotted(n.test.args[0]) == "fallback":
+            if not (len(n.body) == 1 and isinstance(n.body[0], ast.Raise)
+                    and extract.dotted(n.body[0].exc) == "fallback" and not n.orelse):
+                raise NotRecognised("guess_it: isinstance branch is not `raise fallback`")
+            cls = extract.dotted(n.test.args[1]).split(".")[-1]
+            if cls not in KNOWN_EXC:
+                raise NotRecognised("guess_it: isinstance(fallback, %s)" % cls)
+            sel.append(cls)
+    if len(sel) != 1:
+        raise NotRecognised("guess_it: %d isinstance(fallback, …) tests" % len(sel))
+    if [extract.unparse(x) for x in gi[0].body if isinstance(x, ast.Return)] != ["return fallback"]:
+        raise NotRecognised("guess_it does not end in `return fallback`")
+    out["reraise"] = sel[0]
+    return out
+
+
+def _lean_clauses(cl):
+    return extract.lean_list(cl, lambda c: extract.lean_pair(extract.lean_list(c[0], extract.lean_str),
+                                                             extract.lean_str(c[1])))
+
+
 def facts(snap, F):
     linux = extract.parse_module(snap, "_pslinux.py")
     common = extract.parse_module(snap, "_common.py")
@@ -224,6 +341,15 @@ def facts(snap, F):
               "Process.name(): are the length and prefix tests made on the fs-encoded bytes (true) or on the decoded str (false)?")
     F.try_add("openTextNoNewlineTranslation", "Bool", lambda: extract.lean_bool(_open_text_raw(common)),
               "open_text(): is the file opened with newline='\\n' or '' (true) or in universal-newlines mode (false)?")
+    CL = "List (List String × String)"
+    F.try_add("nameCmdlineClauses", CL, lambda: _lean_clauses(get("f", _front_clauses, init)["name"]),
+              "Process.name(): the except clauses around `cmdline = self.cmdline()`, in order: (classes, pass|raise)")
+    F.try_add("exeNativeClauses", CL, lambda: _lean_clauses(get("f", _front_clauses, init)["native"]),
+              "Process.exe(): the except clauses around `exe = self._proc.exe()`: (classes, guess|pass|raise)")
+    F.try_add("exeGuessClauses", CL, lambda: _lean_clauses(get("f", _front_clauses, init)["guess"]),
+              "Process.exe(): the except clauses around `exe = guess_it(fallback=exe)`: (classes, pass|raise)")
+    F.try_add("guessReraiseClass", "String", lambda: extract.lean_str(get("f", _front_clauses, init)["reraise"]),
+              "guess_it(): the class C of `if isinstance(fallback, C): raise fallback`")
 
 
 # ------------------------------------------------------------------------------ worlds <-> JSON
